@@ -79,6 +79,9 @@ CONF = {
     "a_seq": (["C19"], "q", dict(tree=T((1, 0, NONE)), NN=3, progs=[[NEW(2, 1, NONE, 1), NEW(2, 1), NEW(3, 2, 5, 1), NEW(3, 2, 5), NOTIFY(1), POLL(3)]])),
     "a_root": (["C19"], "q", dict(tree=T(), NN=2, progs=[[NEW(1, 0, NONE, 1), NEW(1, 0, 3), NEW(2, 1, 7, 1), NEW(2, 1, 7), POLL(2)]], MaxNow=0)),
     "a_sibling": (["C19"], "q", dict(tree=T((1, 0, NONE)), NN=3, progs=[[NEW(2, 1, NONE, 1), NEW(2, 1), POLL(2)], [NEW(3, 1), NOTIFY(1)]])),
+    # the constructor of a note whose deadline has already passed notifies it on the spot (note.c:176 -> notify -> WAIT_FOR_NO_CHILDREN): any
+    # further allocation made on that path is failed in turn too (x = 2, 3); with the real mutex underneath in the random-schedule part
+    "a_past": (["C19"], "q", dict(tree=T(), NN=3, MaxNow=0, progs=[[NEW(1, 0, -1, 2), NEW(2, 1, -1, 3), POLL(1)], [NEW(3, 0, -1, 2), POLL(3)]])),
     "a_waiter": (["C19"], "q", dict(tree=T((1, 0, NONE)), NN=2, progs=[[WAIT(1)], [NEW(2, 1, NONE, 1), NOTIFY(1)]])),
 }
 
